@@ -55,7 +55,7 @@ def shards(tier):
 def floors(tier):
     return {"cases": 20000, "no_checker_cases": 3000, "with_checker_cases": 10000, "unknown_name_cases": 1000,
             "nonstring_builtin_cases": 2000, "custom_return_cases": 300, "listed_raise_cases": 100,
-            "unlisted_raise_cases": 1000, "subclass_raise_cases": 100, "format_errors_seen": 2000, "nested_cases": 3000}
+            "unlisted_raise_cases": 1000, "subclass_raise_cases": 100, "format_errors_seen": 2000, "nested_cases": 3000, "stateful_sequence_calls": 3000}
 
 
 def wrappers(d, fmt):
@@ -226,6 +226,50 @@ def custom_cases(ctx, rng, d):
                 ctx.violation("conforms-raised", {"draft": d, "direct": "conforms", "kind": kind}, "%r" % (e,))
 
 
+CONFUSABLE = [True, 1, 1.0, False, 0, 0.0, -0.0, "1", "", None, [1], [True], [1.0], {"a": 1}, {"a": True}, 2, 2.0, "True"]
+TYPE_SENSITIVE = {
+    "is-bool": lambda x: isinstance(x, bool),
+    "is-int-not-bool": lambda x: isinstance(x, int) and not isinstance(x, bool),
+    "is-float": lambda x: isinstance(x, float),
+    "truthy": lambda x: bool(x),
+    "is-str": lambda x: isinstance(x, str),
+    "list-of-bool": lambda x: isinstance(x, list) and all(isinstance(e, bool) for e in x),
+    "neg-zero": lambda x: isinstance(x, float) and str(x) == "-0.0",
+}
+
+
+def stateful_sequences(ctx, rng, d):
+    """One checker object, many calls in varying order: the answer for an instance must be the registered
+    function's answer for THAT instance (true/1/1.0 are different JSON values), whatever was asked before."""
+    cls = impl.CLS[d]
+    for name, fn in TYPE_SENSITIVE.items():
+        chk = jsonschema.FormatChecker(formats=())
+        chk.checks(name)(fn)
+        v = cls({"format": name}, format_checker=chk)
+        seq = list(CONFUSABLE) * 2
+        rng.shuffle(seq)
+        for n, inst in enumerate(seq):
+            want_ok = bool(fn(inst))
+            case = {"draft": d, "custom_function": name, "instance": inst, "calls_before": [repr(x) for x in seq[:n]][-6:]}
+            ctx.case([d, "stateful", name, repr(inst), n])
+            ctx.count("cases")
+            ctx.count("stateful_sequence_calls")
+            try:
+                if rng.random() < 0.5:
+                    conf = chk.conforms(inst, name)
+                    errs = list(v.iter_errors(inst))
+                else:
+                    errs = list(v.iter_errors(inst))
+                    conf = chk.conforms(inst, name)
+            except Exception as e:
+                ctx.violation("raised", case, "%s: %s" % (type(e).__name__, str(e)[:120]))
+                continue
+            if conf is not want_ok:
+                ctx.violation("conforms-disagrees-with-registered-function", case, "conforms() returned %r, the function returns %r for this instance" % (conf, want_ok))
+            if bool(errs) == want_ok:
+                ctx.violation("format-error-vs-registered-function", case, "%d format error(s), the function returns %r" % (len(errs), want_ok))
+
+
 def run(ctx):
     impl.quiet()
     checkers = {"none": None, "FormatChecker()": jsonschema.FormatChecker()}
@@ -241,6 +285,8 @@ def run(ctx):
         idx += 1
         if ctx.mine(idx):
             custom_cases(ctx, rr, d)
+            for _ in range(6):
+                stateful_sequences(ctx, rr, d)
         for name in allnames + UNKNOWN:
             for cname, chk in checkers.items():
                 idx += 1
